@@ -52,6 +52,11 @@ def generate(ctx):
             j += 1
     for _ in range(ctx.pick(10, 60)):
         yield "table", dict(k=rng.randint(1, 4), seed=None, noise=rng.randint(0, 5))
+    for _ in range(ctx.pick(40, 400)):
+        # a library-made table used for a round trip at orders 3-4, the start vertex typed as callers have it
+        k = rng.choice([3, 4, 4])
+        yield "table_roundtrip", dict(k=k, seed=rng.getrandbits(32), gseed=rng.getrandbits(32), start_type=rng.choice(["int", "int64", "uint8", "uint8", "uint16", "int16"]),
+                                      fast=rng.random() < 0.4, bits=[rng.randint(0, 1) for _ in range(rng.randint(1, 40))])
 
 
 def check_table(ctx, case):
@@ -134,6 +139,42 @@ def check_table(ctx, case):
     ctx.done("table", case, k >= 2)
 
 
+def check_table_roundtrip(ctx, case):
+    import random as _r
+    dsw = import_dsw()
+    k = case["k"]
+    rng = _r.Random(case["gseed"])
+    acc = gens.arc_graph(rng, k, density=rng.choice([0.6, 0.8, 0.95]), forbid3=case["fast"])
+    if acc is None:
+        return
+    live = G.live_vertices(acc)
+    hi = [v for v in live if v >= 64]
+    start = rng.choice(hi if hi and rng.random() < 0.8 else live)
+    table = np.asarray(dsw.create_random_shuffles(k, case["seed"]))
+    typ = case["start_type"]
+    passed = start if typ == "int" or start > np.iinfo(getattr(np, typ)).max else getattr(np, typ)(start)
+    where = "k=%d start=%d as %s, table seed %d, graph=%s, bits=%s, fast=%s" % (k, start, type(passed).__name__, case["seed"], G.acc_to_hex(acc), case["bits"], case["fast"])
+    try:
+        want, _d = oracles.ref_encode(case["bits"], acc, start, case["fast"], table)
+    except oracles.RefUndefined:
+        return
+    before = table.copy()
+    out = monitored(dsw.encode, 10 ** 7, np.array(case["bits"], dtype=int), acc, passed, is_faster=case["fast"], shuffles=table)
+    if out.kind != "ok" or out.value != want:
+        ctx.fail("digit-to-arc-map", "encode %s, the table's induced map gives %s; %s" % (out.describe(), want, where))
+    else:
+        dec = monitored(dsw.decode, 10 ** 7, out.value, len(case["bits"]), acc, passed, is_faster=case["fast"], shuffles=table)
+        if dec.kind != "ok" or not bits_equal(dec.value, case["bits"]):
+            ctx.fail("decode-does-not-invert", "decode(encode(bits)) %s; %s" % (dec.describe(), where))
+        plain = monitored(dsw.decode, 10 ** 7, out.value, 4 * len(out.value) + 8, acc, passed, is_faster=False)
+        if plain.kind != "ok":
+            ctx.fail("acceptance-set-changed", "the strand written with the table is not accepted without it: %s; %s" % (plain.describe(), where))
+    if not np.array_equal(table, before):
+        ctx.fail("table-modified", "encode/decode changed the caller's shuffle table in place; %s" % where)
+    ctx.cls("round trip with a library-made table|start as %s" % type(passed).__name__)
+    ctx.done("table_roundtrip", case, True)
+
+
 def check_induced(ctx, case):
     dsw = import_dsw()
     perm, pat = case["perm"], case["pattern"]
@@ -182,7 +223,7 @@ def check_induced(ctx, case):
         ctx.cls("fast-mode pattern")
     # acceptance set with and without the table
     for n in range(0, 4):
-        for tup in itertools.product("ACGT", repeat=n):
+        for tup in itertools.product("ACGTNa", repeat=n):      # two symbols outside the alphabet: never part of a walk
             s = "".join(tup)
             a = monitored(dsw.decode, 10 ** 6, s, 8, acc, start, shuffles=table)
             b = monitored(dsw.decode, 10 ** 6, s, 8, acc, start)
@@ -190,7 +231,7 @@ def check_induced(ctx, case):
                 ctx.fail("acceptance-set-changed", "decode(%r) %s with the table but %s without; %s" % (s, a.describe(), b.describe(), where))
             elif (a.kind == "ok") != G.walk(acc, start, s)["ok"]:
                 ctx.fail("acceptance-differs-from-walks", "decode(%r) %s; walk oracle says %s; %s" % (s, a.describe(), G.walk(acc, start, s)["ok"], where))
-    ctx.evaluations += 85
+    ctx.evaluations += 259
     if not np.array_equal(table, table_before):
         ctx.fail("table-modified", "encode/decode changed the caller's shuffle table in place: row %s became %s; %s" % (
             perm, table[start].tolist(), where))
@@ -212,7 +253,7 @@ def check_induced(ctx, case):
     ctx.done("induced", case, d >= 2 and perm != [0, 1, 2, 3])
 
 
-CHECKS = {"table": check_table, "induced": check_induced}
+CHECKS = {"table_roundtrip": check_table_roundtrip, "table": check_table, "induced": check_induced}
 
 
 def floors(agg, tier):
@@ -222,7 +263,7 @@ def floors(agg, tier):
                        ("pattern size 3", 96), ("pattern size 4", 24), ("fast-mode pattern", 168)):
         if c.get(name, 0) < need:
             out.append("%s observed %d < %d" % (name, c.get(name, 0), need))
-    for name, need in (("seed passed as a numpy integer", 50), ("same seed requested again after the first table was scrambled", 100), ("induced map re-checked after an in-place edit", 300)):
+    for name, need in (("seed passed as a numpy integer", 50), ("same seed requested again after the first table was scrambled", 100), ("induced map re-checked after an in-place edit", 300), ("round trip with a library-made table|start as uint8", 100)):
         if c.get(name, 0) < need:
             out.append("%s observed %d < %d" % (name, c.get(name, 0), need))
     if len(agg["sets"].get("distinct-rows", ())) < 24:
